@@ -74,6 +74,8 @@ pub struct Tx<'a> {
     pub value_vars: Vec<String>,
     /// OPS rules (map operations on the bin-level arena; template with //@DIALECT OPS): R27..R36
     pub ops: bool,
+    /// WRAP rules (forwarding wrappers; template with //@DIALECT WRAP = OPS + R44/R45)
+    pub wrap: bool,
     /// R27: `X = loop { .. break V; .. }` is emitted as `loop { .. X = V; break; .. }` (Verus has no break-with-value)
     pub break_targets: Vec<Option<String>>,
 }
@@ -85,7 +87,8 @@ fn path_str(p: &syn::Path) -> String {
 fn is_drop_arg(e: &syn::Expr) -> bool {
     // guard / collector arguments
     let s = toks(e);
-    s == "guard" || s == "collector" || s == "&self.collector" || s == "self.guard" || s == "&guard"
+    let c = s.replace(' ', "");
+    s == "guard" || s == "collector" || s == "&self.collector" || s == "self.guard" || s == "&guard" || c.ends_with(".guard") || c == "our_guard" || c == "their_guard"
 }
 
 impl<'a> Tx<'a> {
@@ -243,6 +246,9 @@ impl<'a> Tx<'a> {
             syn::Expr::Field(fe) if self.ops && matches!(&fe.member, syn::Member::Named(i) if i == "value") && matches!(&*fe.base, syn::Expr::Path(pp) if pp.path.is_ident("not_inserted")) => {
                 // a Box<Linked<V>> handed back to the caller: its value is the value id
                 "not_inserted".to_string()
+            }
+            syn::Expr::Field(fe) if self.ops && self.wrap && matches!(&fe.member, syn::Member::Named(i) if i == "set" || i == "map") && matches!(&*fe.base, syn::Expr::Path(pp) if !pp.path.is_ident("self")) => {
+                self.expr(&fe.base)
             }
             syn::Expr::Field(fe) if self.ops && matches!(&*fe.base, syn::Expr::Path(pp) if pp.path.is_ident("changed")) => {
                 format!("changed_{}", toks(&fe.member))
@@ -588,6 +594,28 @@ impl<'a> Tx<'a> {
                 let k = self.expr(&m.args[0]);
                 format!("h.hash_of({})", k)
             }
+            _ if self.ops && self.wrap && matches!(toks(&*m.receiver).replace(' ', "").as_str(), "self.map" | "self.set") => {
+                // R44 (WRAP): a method of the wrapped map / set: map_<m>(h, this, args) / set_<m>(h, this, args);
+                // guards, closures and callback parameters are not arguments of the arena call, the unit value () is 0
+                let pre = if toks(&*m.receiver).replace(' ', "") == "self.map" { "map" } else { "set" };
+                let mut all = vec!["h".to_string(), "this".to_string()];
+                for a in m.args.iter().filter(|a| !is_drop_arg(a)) {
+                    if matches!(a, syn::Expr::Closure(_)) {
+                        continue;
+                    }
+                    let t = toks(a).replace(' ', "");
+                    if t == "f" || t == "remapping_function" {
+                        continue;
+                    }
+                    if t == "()" {
+                        all.push("0".into());
+                        continue;
+                    }
+                    let v = self.expr(a);
+                    all.push(self.hoist(v));
+                }
+                format!("{}_{}({})", pre, name, all.join(", "))
+            }
             "push_state" | "recover_state" if self.ops && toks(&*m.receiver) == "self" => {
                 let args: Vec<String> = m.args.iter().map(|a| self.expr(a)).collect();
                 format!("self.{}({})", name, args.join(", "))
@@ -645,6 +673,13 @@ impl<'a> Tx<'a> {
                     let body = toks(&*cl.body).replace(['&', '*', ' '], "");
                     if body == v {
                         return self.expr(&m.receiver); // R37: a re-borrow of the same value
+                    }
+                    if self.wrap {
+                        // R45 (WRAP): Option::map with an irrefutable pattern
+                        let x = self.expr(&m.receiver);
+                        let x = self.hoist(x);
+                        let b = self.expr(&cl.body);
+                        return format!("(match {} {{ Some({}) => Some({}), None => None }})", x, v, b);
                     }
                 }
                 self.err("map on an unknown shape", m.span());
@@ -1352,7 +1387,8 @@ pub fn generate(idx: &SrcIndex, template: &str) -> ArenaOut {
         });
         if let Some(key) = t.strip_prefix("//@FN ").or(fnv).or(fnc_key.as_deref()) {
             let verbatim = fnv.is_some();
-            let ops = template.contains("//@DIALECT OPS");
+            let wrap = template.contains("//@DIALECT WRAP");
+            let ops = template.contains("//@DIALECT OPS") || wrap;
             let own = template.contains("//@DIALECT OWN") || ops;
             let key = key.trim().to_string();
             // parse the block
@@ -1428,7 +1464,7 @@ pub fn generate(idx: &SrcIndex, template: &str) -> ArenaOut {
                     }
                 }
                 Some(f) => {
-                    let mut tx = Tx { f, lines: vec![], errors: vec![], aliases: vec![], loop_count: 0, ret_count: 0, self_is_bin: f.owner == "TreeBin" && !own, pre: vec![], tmp_count: 0, verbatim, self_ptr: own, ctx: vec![], lock_vars: vec![], value_vars: vec![], ops, break_targets: vec![] };
+                    let mut tx = Tx { f, lines: vec![], errors: vec![], aliases: vec![], loop_count: 0, ret_count: 0, self_is_bin: f.owner == "TreeBin" && !own, pre: vec![], tmp_count: 0, verbatim, self_ptr: own, ctx: vec![], lock_vars: vec![], value_vars: vec![], ops, wrap, break_targets: vec![] };
                     tx.block(&f.block, 1);
                     errors.extend(tx.errors.iter().cloned());
                     // resolve anchors
